@@ -5,10 +5,9 @@ import "strings"
 func init() {
 	register(&Property{ID: "C11",
 		Jobs: func(tier string) []*Job {
-			n := 1
-			_ = tier
+			n := map[string]int{"quick": 1, "thorough": 2}[tier]
 			return []*Job{f4Job("interfere", "VerifInterfere", n, []string{"ran"}, []string{"C11-shift"},
-				"host program (12 hosts: if/else narrowing, builtin calls, def+call, class method, do-block, case/in, brace block+elsif; leaf kinds solver variables) x independent fragment (8: conditional, array literal, builtin call on a union, block, string call, modifier-if, while loop, hash literal + lookup) x every statement boundary of the host that is not the last statement of its body; host alone vs host+fragment in one path (Snapshot/Restore)")}
+				"host program (20 hosts: if/else narrowing, builtin calls, def+call, class method, do-block, case/in, brace block+elsif, guard clause, modifier-unless, index expressions, splat method, keyword errors, operator assignments, while + case/when, nested index, value-less guard clause, explicit returns; leaf kinds solver variables) x independent fragment (17, none defines a class or a method: conditional, array literal, builtin call on a union, block, string call, modifier-if, while loop, hash literal + lookup, index read/write, string index, failing builtin call, unless/else, case/when, ternary, ||=, brace block); quick tier: the first 12 x 8 pairs in full and a quarter of the others, thorough: all 306 pairs; x every statement boundary of the host that is not the last statement of its body; host alone vs host+fragment in one path (Snapshot/Restore)")}
 		},
 		Custom:    replayPair,
 		Filter:    func(v *Violation) bool { return strings.HasPrefix(v.ID, "C11") },
